@@ -15,6 +15,8 @@ type txnGen struct {
 	sc       dyn.Schema
 	state    map[string]map[string]map[string]val.Val
 	counter  int
+	turn     int // transactions generated so far (special patterns take turns)
+	rot      int
 	pool     int
 	// probabilities
 	pInvalid float64 // chance that a transaction contains a deliberately failing operation
@@ -182,6 +184,20 @@ func (tg *txnGen) txn(maxOps int) []TOp {
 		}
 		if g.Chance(pc) {
 			if ops := tg.custom(tg); len(ops) > 0 {
+				return ops
+			}
+		}
+	}
+	// the special transaction patterns also take turns, so that every history of a few transactions meets each of them
+	// whatever the seed (the coin flips below remain)
+	tg.turn++
+	if tg.turn == 1 {
+		tg.rot = g.Intn(6) // a generator lives for one history: start the rotation somewhere else each time
+	}
+	if tg.turn%3 == 0 {
+		patterns := []func() []TOp{tg.twice, tg.bounded, tg.keepExisting, tg.mixedDelete, tg.reinsert, tg.readThenCollide}
+		for k := 0; k < len(patterns); k++ {
+			if ops := patterns[(tg.turn/3+tg.rot+k)%len(patterns)](); len(ops) > 0 {
 				return ops
 			}
 		}
